@@ -25,7 +25,8 @@ CLAIMED = {
                 "call of Template._compile_from_file/_compile_module_file, a Crash at every label (and midway through the write), "
                 "history steps between constructions. Real constructions run in child processes whose file-system calls are interposed; "
                 "the parent schedules them one call at a time and kills them before/after/midway the k-th call (every k for the single "
-                "writer, seeded for 1-8 concurrent writers); after every event the module path on disk is projected and the whole trace "
+                "writer, seeded for 1-8 concurrent writers); in half of the histories process p is ONE long-lived OS process that constructs the "
+                "Template again and again (every sequence of <= 2 history steps between its constructions); after every event the module path on disk is projected and the whole trace "
                 "is validated by Trace_ModuleFile.tla with the invariants evaluated after every event; TLC -simulate behaviours are "
                 "replayed as schedules on real child processes. Bounded model checking plus conformance, not a proof.",
         "note": "Trusts TLC, the interposers in harness/modfile_child.py (os.stat, os.path.exists, os.open, os.write, os.close, os.rename/replace, "
@@ -174,13 +175,16 @@ CLAIMED = {
     'C10': {       'design_ref': 'DESIGN.md section 3, C10',
         'note': 'Character facts (entities, codecs, isspace) come from CPython and are trusted; universality over code points rests on the '
                 'abstraction into ~32 classes.',
-        'spec': 'Escape.tla, MC_Escape.tla, EscapeInput.tla, Trace_Escape.tla',
+        'spec': 'Escape.tla, MC_Escape.tla, EscapeInput.tla, Trace_Escape.tla, Session_Escape.tla',
         'technique': 'TLA+ model checking (TLC) + spec-to-code replay + trace validation',
         'text': 'TLC checks Neutral, Invertible, UrlSafe, UrlInvertible, EntityExact, TrimOnlyEnds, DecodeStr, HandlerTotal on every '
                 'string of length <=3 (thorough 4) over a 33-character alphabet and exports the expected output of h, x, u, entity, '
                 'unescape, trim, decode and the htmlentityreplace handler for ascii/latin-1/cp1251/shift_jis/utf-8; every string is '
                 'compared with the real filters and Template.render; every code point U+0000..U+10FFFF is swept by class against the shape '
-                'TLC computed for its class representative; random Unicode strings are judged by Trace_Escape.tla. Bounded, not a proof.'},
+                'TLC computed for its class representative; random Unicode strings are judged by Trace_Escape.tla; Session_Escape.tla models sessions of operations in ONE process '
+                '(renders with charset x errors mode, direct str.encode with htmlentityreplace, the filters; HistoryIndependent, '
+                'ProcUntouched, HandlerAlways) and every 2-operation session plus seeded 3-operation sessions run in forked children. '
+                'Bounded, not a proof.'},
     'C17': {       'design_ref': 'DESIGN.md section 3, C17',
         'note': 'Trusts TLC, the concretisation (template text generator), the token/kwargs projection and the recording backend/proxy '
                 '(exercised by negative controls). No wall-clock expiry; cache.set only on the reference backend; dogpile one region per '
